@@ -30,6 +30,7 @@ from ..type import (
     assert_leaf_type,
     is_enum_type,
     is_input_object_type,
+    is_leaf_type,
     is_list_type,
     is_non_null_type,
     is_required_input_field,
@@ -177,6 +178,8 @@ def validate_input_value_impl(
                         Path(path, field_name, type_.name),
                     )
     else:
+        if not is_leaf_type(type_):
+            return  # not an input type at all: reported by schema validation
         assert_leaf_type(type_)
 
         result: Any = Undefined
@@ -441,6 +444,8 @@ def validate_input_literal_impl(
                     Path(path, field_name, None),
                 )
     else:
+        if not is_leaf_type(type_):
+            return  # not an input type at all: reported by schema validation
         leaf_type = assert_leaf_type(type_)
 
         result: Any = Undefined
